@@ -37,6 +37,7 @@ type fctx struct {
 	retStack []string
 	nonNil   map[*types.Var]bool
 	inSwitch int
+	natVars  map[*types.Var]bool
 }
 
 func (c *fctx) fail(n ast.Node, format string, a ...interface{}) {
@@ -172,11 +173,10 @@ func (c *fctx) toInt(e ast.Expr) string {
 	if !ok {
 		c.fail(e, "integer expected, got %s", tv.Type)
 	}
-	s := c.expr(e)
 	if k == types.Int {
-		return s
+		return c.expr(e)
 	}
-	return "(" + s + ".toNat : Int)"
+	return "(" + c.expr(e) + ".toNat : Int)"
 }
 
 // Lean name of field f of struct type ty (extern structs have their own field names)
@@ -290,6 +290,9 @@ func (c *fctx) expr(e ast.Expr) string {
 			if o.Parent() == o.Pkg().Scope() {
 				c.fail(e, "package-level variable %s", o.Name())
 			}
+			if c.natVars[o] {
+				return "(" + c.name(o) + " : Int)"
+			}
 			return c.name(o)
 		case *types.Const:
 			return c.constLit(e, types.TypeAndValue{Type: o.Type(), Value: o.Val()})
@@ -305,6 +308,12 @@ func (c *fctx) expr(e ast.Expr) string {
 		}
 		return c.selectorPath(x)
 	case *ast.StarExpr:
+		if pt, ok := c.info.Types[x.X].Type.Underlying().(*types.Pointer); ok {
+			if _, ok := pt.Elem().Underlying().(*types.Basic); ok {
+				p := c.expr(x.X)
+				return c.bindM("", "match "+p+" with | some v => Res.ok v | none => Res.fault")
+			}
+		}
 		return c.expr(x.X)
 	case *ast.IndexExpr:
 		xt := c.info.Types[x.X].Type
@@ -313,6 +322,12 @@ func (c *fctx) expr(e ast.Expr) string {
 			c.fail(e, "index of %s", xt)
 		}
 		base := c.expr(x.X)
+		if nt, ok := c.natTerm(x.Index); ok {
+			if c.ltype(e, sl.Elem()) == "UInt8" {
+				return c.bindM("", fmt.Sprintf("goIndex %s %s", base, nt))
+			}
+			return c.bindM("", fmt.Sprintf("Go.indexN %s %s", base, nt))
+		}
 		idx := c.toInt(x.Index)
 		return c.bindM(c.ltype(e, sl.Elem()), fmt.Sprintf("Go.index %s %s", base, idx))
 	case *ast.SliceExpr:
@@ -324,6 +339,22 @@ func (c *fctx) expr(e ast.Expr) string {
 			c.fail(e, "3-index slice")
 		}
 		base := c.expr(x.X)
+		isBytes := c.ltype(e, xt) == "Bytes"
+		lowN, lowOk := "0", true
+		if x.Low != nil {
+			lowOk = c.isNatExpr(x.Low)
+		}
+		highOk := x.High == nil || c.isNatExpr(x.High)
+		if isBytes && lowOk && highOk && (x.Low != nil || x.High != nil) {
+			if x.Low != nil {
+				lowN, _ = c.natTerm(x.Low)
+			}
+			if x.High != nil {
+				hi, _ := c.natTerm(x.High)
+				return c.bindM("", fmt.Sprintf("goSlice %s %s %s", base, lowN, hi))
+			}
+			return c.bindM("", fmt.Sprintf("goFrom %s %s", base, lowN))
+		}
 		switch {
 		case x.Low != nil && x.High != nil:
 			lo := c.toInt(x.Low)
@@ -549,13 +580,28 @@ func (c *fctx) cond(e ast.Expr) string {
 						return "(" + v + " = .nil_)"
 					}
 				}
+				if pt, ok := lt.Underlying().(*types.Pointer); ok {
+					if _, ok := pt.Elem().Underlying().(*types.Basic); ok {
+						v := c.expr(other)
+						if x.Op == token.NEQ {
+							return "(" + v + " ≠ none)"
+						}
+						return "(" + v + " = none)"
+					}
+				}
 				c.fail(e, "comparison of %s with nil", lt)
 			}
 			if _, ok := lt.Underlying().(*types.Basic); !ok {
 				c.fail(e, "comparison of %s", lt)
 			}
-			l := c.expr(x.X)
-			r := c.expr(x.Y)
+			var l, r string
+			if c.bothNatInts(x.X, x.Y) {
+				l, _ = c.natTerm(x.X)
+				r, _ = c.natTerm(x.Y)
+			} else {
+				l = c.expr(x.X)
+				r = c.expr(x.Y)
+			}
 			if x.Op == token.EQL {
 				return "(" + l + " = " + r + ")"
 			}
@@ -564,8 +610,14 @@ func (c *fctx) cond(e ast.Expr) string {
 			if _, ok := intKind(c.info.Types[x.X].Type); !ok {
 				c.fail(e, "ordering of %s", c.info.Types[x.X].Type)
 			}
-			l := c.expr(x.X)
-			r := c.expr(x.Y)
+			var l, r string
+			if c.bothNatInts(x.X, x.Y) {
+				l, _ = c.natTerm(x.X)
+				r, _ = c.natTerm(x.Y)
+			} else {
+				l = c.expr(x.X)
+				r = c.expr(x.Y)
+			}
 			op := map[token.Token]string{token.LSS: "<", token.LEQ: "≤", token.GTR: ">", token.GEQ: "≥"}[x.Op]
 			return "(" + l + " " + op + " " + r + ")"
 		}
@@ -633,7 +685,7 @@ func (c *fctx) callExpr(call *ast.CallExpr) string {
 				if _, ok := at.Underlying().(*types.Slice); !ok {
 					c.fail(call, "len of %s", at)
 				}
-				return "(Go.len " + c.expr(call.Args[0]) + ")"
+				return "(" + c.expr(call.Args[0]) + ".length : Int)"
 			case "append":
 				base := c.expr(call.Args[0])
 				if call.Ellipsis.IsValid() {
@@ -665,6 +717,12 @@ func (c *fctx) callExpr(call *ast.CallExpr) string {
 					}
 					return "(List.replicate " + stv.Value.ExactString() + " " + c.zero(call, sl.Elem()) + ")"
 				}
+				if nt, ok := c.natTerm(call.Args[1]); ok {
+					if et == "UInt8" {
+						return "(zeros " + nt + ")"
+					}
+					return "(List.replicate " + nt + " " + c.zero(call, sl.Elem()) + ")"
+				}
 				n := c.toInt(call.Args[1])
 				return c.bindM("", fmt.Sprintf("Go.make (α := %s) %s", et, n))
 			}
@@ -677,6 +735,14 @@ func (c *fctx) callExpr(call *ast.CallExpr) string {
 			if p, ok := c.isPkgIdent(inner.X); ok && p == "encoding/binary" && inner.Sel.Name == "BigEndian" {
 				switch sel.Sel.Name {
 				case "Uint16", "Uint32", "Uint64":
+					if se, ok := call.Args[0].(*ast.SliceExpr); ok && !se.Slice3 && se.Low != nil && se.High != nil && c.isNatExpr(se.Low) && c.isNatExpr(se.High) {
+						if c.ltype(se, c.info.Types[se.X].Type) == "Bytes" {
+							b := c.expr(se.X)
+							lo, _ := c.natTerm(se.Low)
+							hi, _ := c.natTerm(se.High)
+							return c.bindM("", fmt.Sprintf("Go.u%sAt %s %s %s", strings.TrimPrefix(sel.Sel.Name, "Uint"), b, lo, hi))
+						}
+					}
 					a := c.expr(call.Args[0])
 					return c.bindM("", "Go.beU"+strings.TrimPrefix(sel.Sel.Name, "Uint")+" "+a)
 				}
@@ -693,4 +759,25 @@ func (c *fctx) callExpr(call *ast.CallExpr) string {
 	}
 	res := c.useCall(call, co, false)
 	return res[0]
+}
+
+// is e (an index / bound) expressible as a Nat term?
+func (c *fctx) isNatExpr(e ast.Expr) bool {
+	tv := c.info.Types[e]
+	if tv.Value != nil {
+		return tv.Value.Kind() == constant.Int && constant.Sign(tv.Value) >= 0
+	}
+	if k, ok := intKind(tv.Type); ok && width(k) > 0 {
+		return true
+	}
+	return c.isNonneg(e)
+}
+
+// both operands are Go ints and non-negative: compare as Nat
+func (c *fctx) bothNatInts(a, b ast.Expr) bool {
+	ta, tb := c.info.Types[a].Type, c.info.Types[b].Type
+	if !isGoInt(ta) || !isGoInt(tb) {
+		return false
+	}
+	return c.isNatExpr(a) && c.isNatExpr(b)
 }
